@@ -38,6 +38,8 @@ type facts struct {
 	ctxFreshDone, ctxSetsCancelChan               bool
 	newSetsCancelChan                             bool
 	recvStoresAfterCheck, closureRestoresSlot     bool
+	stopMarksEpochs, epochPlumbing, newMakesDone  bool
+	hostWrapperNoEpoch                            bool
 	blk                                           map[string]blockFact
 	execRuns                                      []string // arguments of the interp.run calls of Execute, in order ("loop:" prefix inside `for … range p.init`)
 	notes                                         []string
@@ -72,6 +74,9 @@ func (f *facts) callFrameOf(ip *ast.File) callFrame {
 	fd := common.FindFunc(ip, "", "newCallFrame")
 	if fd == nil {
 		return cf
+	}
+	if e, ok := f.epochCallFrame(fd); ok {
+		return e
 	}
 	if fd.Type.Params == nil || len(fd.Type.Params.List) == 0 || len(fd.Type.Params.List[0].Names) == 0 {
 		f.note("newCallFrame: parameters")
@@ -142,6 +147,71 @@ func (f *facts) callFrameOf(ip *ast.File) callFrame {
 	return cf
 }
 
+// epochCallFrame recognises newCallFrame(interp, anc, length, e) of dc95f3e: under ONE interp.mutex.RLock it reads
+// `id, done := interp.runid(), interp.done`, replaces id by deadRunID `if e != nil && e.cancelled`, and returns a frame
+// literal with that id, that channel as done case, epoch e, ancestor anc and anc's root. ok = false: not this shape.
+func (f *facts) epochCallFrame(fd *ast.FuncDecl) (callFrame, bool) {
+	var names []string
+	for _, fl := range fd.Type.Params.List {
+		for _, n := range fl.Names {
+			names = append(names, n.Name)
+		}
+	}
+	if len(names) != 4 {
+		return callFrame{}, false
+	}
+	ip, anc, e := names[0], names[1], names[3]
+	cf := callFrame{"other", "other"}
+	lock, read, dead, unlock := -1, -1, -1, -1
+	for i, st := range fd.Body.List {
+		switch t := src(st); {
+		case t == ip+".mutex.RLock()":
+			lock = i
+		case t == "id, done := "+ip+".runid(), "+ip+".done":
+			read = i
+		case t == ip+".mutex.RUnlock()":
+			unlock = i
+		}
+		if is, ok := st.(*ast.IfStmt); ok && src(is.Cond) == e+" != nil && "+e+".cancelled" && len(is.Body.List) == 1 && src(is.Body.List[0]) == "id = deadRunID" && is.Else == nil {
+			dead = i
+		}
+	}
+	if !(lock >= 0 && lock < read && read < dead && dead < unlock) {
+		f.note("newCallFrame: id, done and the epoch are not read under one RLock (%d %d %d %d)", lock, read, dead, unlock)
+		return cf, true
+	}
+	// the frame literal
+	okLit := false
+	ast.Inspect(fd, func(m ast.Node) bool {
+		r, ok := m.(*ast.ReturnStmt)
+		if !ok || len(r.Results) != 1 {
+			return true
+		}
+		u, ok := r.Results[0].(*ast.UnaryExpr)
+		if !ok {
+			return true
+		}
+		cl, ok := u.X.(*ast.CompositeLit)
+		if !ok || src(cl.Type) != "frame" {
+			return true
+		}
+		kv := map[string]string{}
+		for _, el := range cl.Elts {
+			if k, ok := el.(*ast.KeyValueExpr); ok {
+				kv[src(k.Key)] = src(k.Value)
+			}
+		}
+		okLit = kv["id"] == "id" && kv["anc"] == anc && kv["root"] == anc+".root" && kv["epoch"] == "unsafe.Pointer("+e+")" &&
+			kv["done"] == "reflect.SelectCase{Dir: reflect.SelectRecv, Chan: reflect.ValueOf(done)}"
+		return true
+	})
+	if !okLit {
+		f.note("newCallFrame: the frame literal is not {anc, anc.root, id, epoch e, done}")
+		return cf, true
+	}
+	return callFrame{"epoch", "interp"}, true
+}
+
 // classify the id argument of newFrame(anc, len, id); a call of newCallFrame(anc, len) is resolved by oneSite.
 func idSrc(c *ast.CallExpr) string {
 	if len(c.Args) != 3 {
@@ -175,7 +245,7 @@ func (f *facts) oneSite(file *ast.File, recv, name string, cf callFrame) (id, do
 		return "other", "other"
 	}
 	if fn := cs[0].Fun.(*ast.Ident).Name; fn == "newCallFrame" {
-		if len(cs[0].Args) != 2 || cf.id == "other" || cf.done == "other" {
+		if (len(cs[0].Args) != 2 && len(cs[0].Args) != 4) || cf.id == "other" || cf.done == "other" {
 			f.note("%s: %s", name, src(cs[0]))
 			return "other", "other"
 		}
@@ -398,7 +468,11 @@ func extract(repo string) (*facts, string, error) {
 		f.callID = "other"
 		f.note("call: the frame does not inherit the done channel of its ancestor")
 	}
-	f.wrapperID, f.wrapperDone = f.oneSite(run, "", "genFunctionWrapper", cfr)
+	wrapperFn := "genFunctionWrapper"
+	if common.FindFunc(run, "", "genFunctionWrapperFor") != nil {
+		wrapperFn = "genFunctionWrapperFor"
+	}
+	f.wrapperID, f.wrapperDone = f.oneSite(run, "", wrapperFn, cfr)
 	if f.entryID, d = f.oneSite(run, "Interpreter", "run", cfr); d != "inherit" {
 		f.entryID = "other"
 		f.note("Interpreter.run: the frame is not made by newFrame")
@@ -407,7 +481,11 @@ func extract(repo string) (*facts, string, error) {
 	f.closureID, f.closureDone = f.oneSite(run, "", "getFunc", cfr)
 	if gf := common.FindFunc(run, "", "getFunc"); gf != nil {
 		cs := newFrameCalls(gf)
-		if len(cs) == 1 && len(cs[0].Args) >= 2 && !contains(gf, src(cs[0].Args[0])+" := f.clone()") {
+		ancArg := 0
+		if len(cs) == 1 && len(cs[0].Args) == 4 {
+			ancArg = 1
+		}
+		if len(cs) == 1 && len(cs[0].Args) >= 2 && !contains(gf, src(cs[0].Args[ancArg])+" := f.clone()") {
 			f.closureID = "other"
 			f.note("getFunc: the ancestor of the closure frame is not f.clone()")
 		}
@@ -480,6 +558,12 @@ func extract(repo string) (*facts, string, error) {
 				f.stopBumps = true
 			case "close(interp.done)":
 				f.stopCloses = true
+			case "for e := range interp.running { e.cancelled = true }":
+				// every evaluation in progress is marked, before the id moves on (all under the mutex)
+				f.stopMarksEpochs = !f.stopBumps
+				if f.stopBumps {
+					f.note("stop marks the running epochs after the bump")
+				}
 			case "interp.done = make(chan struct{})":
 				// a fresh channel for the evaluations that follow, installed after the close
 				f.stopRenews = f.stopCloses
@@ -494,6 +578,25 @@ func extract(repo string) (*facts, string, error) {
 	if rid := common.FindFunc(ip, "Interpreter", "runid"); rid == nil || !contains(rid, "return atomic.LoadUint64(&interp.id)") {
 		f.note("Interpreter.runid does not load interp.id")
 		f.stopBumps = false
+	}
+	// begin / end: begin makes a new epoch, registers it as running, refreshes the root id and stores the epoch in the
+	// root frame, all under the interpreter's mutex; end only unregisters the epoch
+	beginOK := false
+	if bg, en := common.FindFunc(ip, "Interpreter", "begin"), common.FindFunc(ip, "Interpreter", "end"); bg != nil && en != nil {
+		want := []string{"e := new(epoch)", "interp.mutex.Lock()", "interp.running[e] = struct{}{}", "interp.frame.setrunid(interp.runid())", "interp.frame.setEpoch(e)", "interp.mutex.Unlock()", "return e"}
+		got := []string{}
+		for _, st := range bg.Body.List {
+			got = append(got, src(st))
+		}
+		wantEnd := []string{"interp.mutex.Lock()", "delete(interp.running, e)", "interp.mutex.Unlock()"}
+		gotEnd := []string{}
+		for _, st := range en.Body.List {
+			gotEnd = append(gotEnd, src(st))
+		}
+		beginOK = strings.Join(got, ";") == strings.Join(want, ";") && strings.Join(gotEnd, ";") == strings.Join(wantEnd, ";")
+		if !beginOK {
+			f.note("begin / end have an unrecognised shape")
+		}
 	}
 	// Execute: refresh before the first interp.run, nothing that looks at a cancellation afterwards
 	if ex := common.FindFunc(prog, "Interpreter", "Execute"); ex != nil {
@@ -525,6 +628,13 @@ func extract(repo string) (*facts, string, error) {
 			}
 			if t == "defer func() { interp.frame.setrunid(interp.runid()) }()" {
 				f.execRefreshAtReturn = true
+				continue
+			}
+			if t == "defer interp.end(interp.begin())" {
+				// begin() runs now (it refreshes the root id, see beginOK), end() when Execute returns (it refreshes nothing)
+				if !seenRun && beginOK {
+					f.execRefresh = true
+				}
 				continue
 			}
 			if seenRun {
@@ -563,6 +673,63 @@ func extract(repo string) (*facts, string, error) {
 	} else {
 		f.note("New not found")
 	}
+	// New: the cancellation channel exists from the creation of the interpreter (2db9fe7)
+	if nw := common.FindFunc(ip, "", "New"); nw != nil {
+		ast.Inspect(nw, func(m ast.Node) bool {
+			if kv, ok := m.(*ast.KeyValueExpr); ok && src(kv.Key) == "done" && src(kv.Value) == "make(chan struct{})" {
+				f.newMakesDone = true
+			}
+			return true
+		})
+	}
+	// epochs reach the function values: newFrame and clone copy the epoch of their frame, the wrapper of
+	// genFunctionWrapper reads the epoch of its frame when it is GENERATED (outside the MakeFunc literal), the closure of
+	// getFunc passes the epoch of its cloned frame
+	{
+		ok := beginOK
+		if nf := common.FindFunc(ip, "", "newFrame"); nf == nil || !contains(nf, "f.epoch = unsafe.Pointer(anc.getEpoch())") {
+			ok = false
+		}
+		if cl := common.FindFunc(ip, "frame", "clone"); cl == nil || !contains(cl, "unsafe.Pointer(f.getEpoch())") {
+			ok = false
+		}
+		wf := common.FindFunc(run, "", "genFunctionWrapperFor")
+		if wf == nil {
+			wf = common.FindFunc(run, "", "genFunctionWrapper")
+		}
+		readOutside, hostNil := false, false
+		if wf != nil {
+			ast.Inspect(wf, func(m ast.Node) bool {
+				if c, ok := m.(*ast.CallExpr); ok && src(c.Fun) == "reflect.MakeFunc" {
+					return false // not inside the wrapper itself
+				}
+				if is, ok := m.(*ast.IfStmt); ok && src(is.Cond) == "!host" && len(is.Body.List) == 1 && src(is.Body.List[0]) == "e = f.getEpoch()" {
+					readOutside, hostNil = true, true
+				}
+				if as, ok := m.(*ast.AssignStmt); ok && (src(as) == "e := f.getEpoch()" || src(as) == "e = f.getEpoch()") {
+					readOutside = true
+				}
+				return true
+			})
+			if !contains(wf, "newCallFrame(n.interp, f, len(def.types), e)") {
+				readOutside = false
+			}
+		}
+		if gf := common.FindFunc(run, "", "getFunc"); gf == nil || !contains(gf, "newCallFrame(n.interp, fr, len(n.types), fr.getEpoch())") {
+			ok = false
+		}
+		f.epochPlumbing = ok && readOutside
+		// the functions the host takes from the global frame belong to no epoch
+		hw := common.FindFunc(run, "", "genHostFunctionWrapper")
+		ex := common.FindFunc(prog, "Interpreter", "Execute")
+		f.hostWrapperNoEpoch = hostNil && hw != nil && contains(hw, "return genFunctionWrapperFor(n, true)") && ex != nil && contains(ex, "res = genHostFunctionWrapper(n)(interp.frame)")
+		if fsetU, usef, err := common.ParseFile(repo, "interp/use.go"); err == nil {
+			_ = fsetU
+			if sy := common.FindFunc(usef, "Interpreter", "Symbols"); sy == nil || !contains(sy, "syms[n] = genHostFunctionWrapper(s.node)(interp.frame)") {
+				f.hostWrapperNoEpoch = false
+			}
+		}
+	}
 	// importSrc: the root id is refreshed before the entry points of the imported package run
 	if fsetS, srcf, err := common.ParseFile(repo, "interp/src.go"); err == nil {
 		_ = fsetS
@@ -572,7 +739,7 @@ func extract(repo string) (*facts, string, error) {
 				if contains(s, "interp.run(n, nil)") || contains(s, "interp.run(n, interp.frame)") {
 					seenRun = true
 				}
-				if src(s) == "interp.frame.setrunid(interp.runid())" && !seenRun {
+				if (src(s) == "interp.frame.setrunid(interp.runid())" || (src(s) == "defer interp.end(interp.begin())" && beginOK)) && !seenRun {
 					f.importRefresh = true
 				}
 			}
@@ -592,7 +759,7 @@ func extract(repo string) (*facts, string, error) {
 	}
 	hashes := "[" + strings.Join([]string{
 		strings.Trim(common.HashTable(fsetI, ip, [][2]string{{"", "newFrame"}, {"", "newCallFrame"}, {"frame", "runid"}, {"frame", "setrunid"}, {"frame", "clone"},
-			{"Interpreter", "stop"}, {"Interpreter", "runid"}, {"Interpreter", "EvalWithContext"}, {"Interpreter", "EvalPathWithContext"}}), "[]"),
+			{"Interpreter", "stop"}, {"Interpreter", "begin"}, {"Interpreter", "end"}, {"Interpreter", "runid"}, {"Interpreter", "EvalWithContext"}, {"Interpreter", "EvalPathWithContext"}}), "[]"),
 		strings.Trim(common.HashTable(fsetP, prog, [][2]string{{"Interpreter", "ExecuteWithContext"}}), "[]"),
 		strings.Trim(common.HashTable(fsetR, run, [][2]string{{"Interpreter", "run"}, {"", "rangeChan"}}), "[]"),
 	}, ",\n   ") + "]"
@@ -689,7 +856,8 @@ def facts : RunIdFacts :=
     send := %s,
     range := %s,
     select := %s,
-    recvStoresAfterCheck := %s, closureRestoresSlot := %s }
+    recvStoresAfterCheck := %s, closureRestoresSlot := %s,
+    stopMarksEpochs := %s, epochPlumbing := %s, newMakesDone := %s, hostWrapperNoEpoch := %s }
 /-- program.go Execute: the run list (arguments of its interp.run calls, in order) -/
 def execRuns : List String := %s
 /-- what the extractor could not recognise (must be empty) -/
@@ -703,5 +871,6 @@ end YaegiVerif.Generated.%s
 		b(f.execRefresh), b(f.execRefreshAtReturn), b(f.execChecksCancel), b(f.importRefresh),
 		b(f.watcherStops), b(f.watcherCtxErr), b(f.ctxFreshDone), b(f.ctxSetsCancelChan), b(f.newSetsCancelChan),
 		bf("recv"), bf("recv2"), bf("send"), bf("range"), bf("select"), b(f.recvStoresAfterCheck), b(f.closureRestoresSlot),
+		b(f.stopMarksEpochs), b(f.epochPlumbing), b(f.newMakesDone), b(f.hostWrapperNoEpoch),
 		common.LeanStrList(f.execRuns), common.LeanStrList(f.notes), hashes, id), nil
 }
